@@ -397,7 +397,11 @@ func c14CheckReq(sc *hpScenario, k int, obs *hpObs, report func(kind, detail str
 	if len(down) > 1 {
 		report("more than one response for one request", fmt.Sprintf("%+v; filters: %s", down, logStr))
 	}
-	if answered && !terminated {
+	oneway := sc.Requests[k].Oneway
+	if oneway && len(down) > 0 {
+		report("a one-way request was answered", fmt.Sprintf("%+v; filters: %s", down, logStr))
+	}
+	if answered && !terminated && !oneway {
 		// the first answering filter in call order decides the reply
 		if len(down) != 1 {
 			report("request answered by a filter but the client did not get exactly that one response", fmt.Sprintf("%d responses; filters: %s", len(down), logStr))
@@ -430,7 +434,7 @@ func c14CheckReq(sc *hpScenario, k int, obs *hpObs, report func(kind, detail str
 			}
 		}
 	}
-	if !answered && !terminated && len(down) != 1 {
+	if !answered && !terminated && !oneway && len(down) != 1 {
 		// (C03 territory, but with filters in the chain it is a C14 concern too)
 		report("no filter denied the request but the client did not get exactly one response", fmt.Sprintf("%d responses; filters: %s; log=%v", len(down), logStr, obs.Log))
 	}
@@ -522,6 +526,15 @@ func TestVerifC14Filters(t *testing.T) {
 	for _, sc := range c14Scenarios(vreport.Pick(1, 2), 1, []string{upReply200}) {
 		sc.RetryOn, sc.NumRetries, sc.HijackCode, sc.Hosts = true, 1, 503, 2
 		sc.Name += " retry_on hijack=503"
+		scs = append(scs, sc)
+	}
+	// one-way requests have no response sender: a filter's denial must still keep them from the upstream
+	for _, sc := range c14Scenarios(vreport.Pick(1, 2), 1, []string{upReply200}) {
+		if len(sc.Filters) == 0 {
+			continue
+		}
+		sc.Requests[0].Oneway = true
+		sc.Name += " oneway"
 		scs = append(scs, sc)
 	}
 	// recycled per-stream state: the chain object of a finished stream is handed to the next one
